@@ -36,8 +36,14 @@ Accepted subset (anything else raises TranslateError with file:line):
              local list, or a parameter SPECS marks as mutated - its final value is
              part of the generated function's result);  if / elif / else;
              for pos, c in enumerate(string) / for x in string-or-list (no else;
-             the iterated list is not mutated in the body);  while cond (no else;
-             fuel from SPECS);  break, continue, return e;  docstrings;  pass.
+             the iterated list is not mutated in the body, except that a list the
+             function owns may be stored into by `x[i] = e` - nothing else - while it
+             is iterated: the loop then reads x[pos] from the current list, as
+             Python's list iterator does);  while cond (no else; fuel from SPECS);
+             break, continue, return e;  docstrings;  pass.
+             `if a and b:` / `if a or b:` where a later operand contains an operation
+             that can raise is read as the nested conditionals it abbreviates
+             (`if a: if b: S else: T else: T`, resp. `if a: S else: if b: S else: T`).
              Plain aliasing of a list (x = y) is refused.  A variable first
              assigned inside a loop body or on one side of a conditional only is
              not visible afterwards.
@@ -50,8 +56,13 @@ Accepted subset (anything else raises TranslateError with file:line):
              s.lower();  c.lower(), c.isdigit(), c.isalpha(), c.isupper() on one
              character;  ''.join(string);  ''.join(e for c in string);
              (string, label) with label = None, 'Y1', 'X1', 'E', 'W' or
-             'K'/'A'/'D'/'O' + str(int);  truth value of a string / list / "T or
-             None" / bool in a condition.
+             'K'/'A'/'D'/'O' + str(int), also written f'D{int}' (no conversion, no
+             format specification);  truth value of a string / list / "T or None" /
+             bool in a condition.
+  layout     the variables a loop / a conditional carries are put into the generated
+             tuples in a canonical order (by type, variables of one type in the order
+             of their first binding), so that moving independent statements around
+             does not change the generated term.
   PCFGPasswordParser.parse: the calls of the detectors in order (the ones of SPECS
              as translated; detect_keyboard_walk, email_detection and
              website_detection as parameters of the generated section: their
